@@ -9,6 +9,7 @@ mod s_api;
 mod s_bytes;
 mod s_delivery;
 mod s_events;
+mod s_keys;
 mod s_match;
 mod s_qos;
 mod s_timing;
@@ -22,6 +23,7 @@ fn scenarios(id: &str, args: &Args) -> Option<Vec<explore::Scenario>> {
         "C03" => s_acks::c03(args),
         "C04" => s_acks::c04(args),
         "C05" => s_delivery::c05(args),
+        "C11" => s_keys::c11(args),
         "C15" => s_qos::c15(args),
         "C16" => s_match::c16(args),
         "C17" => s_match::c17(args),
